@@ -672,6 +672,7 @@ package spec
 // ---- resolveRef: which document, which pointer, which error (C05); failures ghost (C08)
 
 //@ define refLocal(ref *Ref) bool = (ref.referenceURL != nil && !((ref.HasFileScheme && ref.HasFullFilePath) || (!ref.HasFileScheme && ref.HasFullURL)) && !ref.HasURLPathOnly && ref.referenceURL.Fragment == "") || ref.HasFragmentOnly
+//@ define refLocalV(ref Ref) bool = (ref.referenceURL != nil && !((ref.HasFileScheme && ref.HasFullFilePath) || (!ref.HasFileScheme && ref.HasFullURL)) && !ref.HasURLPathOnly && ref.referenceURL.Fragment == "") || ref.HasFragmentOnly
 //@ define refFragment(ref *Ref) string = ref.referenceURL == nil ? "" : ref.referenceURL.Fragment
 // loader key of a canonical reference string x (record normalised as jsonreference does, fragment dropped, then normalizeBase)
 //@ define remoteKey(x string) string = normBase(urlStr(urlScheme(x), normHost(urlScheme(x), urlHost(x)), dedupSlashes(urlPath(x)), urlQuery(x), ""))
@@ -717,7 +718,12 @@ package spec
 //@ func (*schemaLoader).transitiveResolver
 //@   inline   normalizeRef
 //@   property C02, C04
-//@   requires wfResolver(r) && urlOK(basePath) && urlScheme(basePath) != ""
+//@   requires wfResolver(r) && canonBase(basePath)
+//@   assumes  [C04] documents-have-paths @@ !refLocalV(ref) ==> hasPrefix(urlPath(normURI(refStringV(ref), basePath)), "/")
+//@   uses     verifLemmaNormIdem.norm-canonical(refStringV(ref), basePath)
+//@   uses     normalizeBase.keeps-canonical-base(remoteOf(canonStr(normURI(refStringV(ref), basePath))))
+//@   uses     normalizeBase.non-empty(remoteOf(canonStr(normURI(refStringV(ref), basePath))))
+//@   ensures  [C04] switched-base-canonical @@ result != r ==> canonBase(normBase(result.options.RelativeBase))
 //@   assigns  r.options.RelativeBase
 //@   ensures  same-run @@ sameRun(result, r)
 //@   ensures  [C02] local-keeps @@ old(refLocal(ref)) ==> result == r
@@ -987,3 +993,23 @@ package spec
 //@   requires ref != nil && urlOK(originalRelativeBase)
 //@   assigns  nothing
 //@   ensures  true
+
+// ---- parameters, responses, path items, operations
+
+//@ func expandParameterOrResponse
+//@   strings  uninterpreted
+//@   property C04, C08, C03, C18
+//@   appendview
+//@   requires wfResolver(resolver) && canonBase(basePath)
+//@   requires holds(input, "*Parameter") || holds(input, "*Response")
+//@   requires payload(input) != nil ==> sepFrom(payload(input), resolver, nilStrings()) && allocated(payload(input))
+//@   ensures  kept @@ loaderKept(resolver, old(resolver.options), old(resolver.cache), old(resolver.context), old(resolver.options.ContinueOnError), old(resolver.options.SkipSchemas), old(resolver.options.AbsoluteCircularRef))
+//@   ensures  [C08] failures-monotone @@ failures >= old(failures)
+//@   ensures  [C08] strict-propagates @@ old(strict(resolver)) && failures > old(failures) ==> result != nil
+//@   ensures  [C08] no-spurious-error @@ result != nil ==> failures > old(failures)
+//@   ensures  [C08] continue-silent @@ !old(strict(resolver)) ==> result == nil
+//@   ensures  [C18] cache-dom-monotone @@ forall u string :: old(cacheDom[u]) ==> cacheDom[u]
+//@   ensures  [C03] memo-monotone @@ forall k string :: old(has(resolver.context.circulars, k)) ==> has(resolver.context.circulars, k)
+//@   ensures  loaders-immutable @@ forall l *schemaLoader :: allocated(l) ==> l.root == old(l.root) && l.options == old(l.options) && l.cache == old(l.cache) && l.context == old(l.context)
+//@ specfn nilStrings() []string
+//@ axiom sliceArr(nilStrings()) == nil
